@@ -198,6 +198,10 @@ def check(spec):
     # at nodal cross-sections only (see ASSUMPTIONS)
     interior_rod = any(b["kind"] == "rod" and not b["nodal"] for b in spec["bodies"])
     hierarchy(res, system, t, q, u, ud, la, site, feats, time_clauses=not interior_rod)
+    # the same clauses at a second velocity / acceleration / multiplier at the *same* (t, q): bodies and joints memoise
+    # kinematic quantities per configuration, and a velocity-dependent one keyed on (t, q) alone would be served stale
+    hierarchy(res, system, t, q, -0.6 * u[::-1] + 0.3, 0.8 * ud[::-1] - 0.1, la[::-1] * 0.5 + 0.2, site, feats,
+              time_clauses=not interior_rod)
     gabs = float(np.max(np.abs(system.g(t, q))))
     moving = any(k == "frame_moving" for k in (k1, k2))
     both = all(k in ("rigid", "point") or k.startswith("rod") for k in (k1, k2))
